@@ -5,6 +5,8 @@ import CqlVerif.Lemmas.Grammar
 import CqlVerif.Lemmas.GrammarStmt
 import CqlVerif.Lemmas.GrammarUpdate
 import CqlVerif.Lemmas.GrammarBatch
+import CqlVerif.Lemmas.GrammarPlain
+import CqlVerif.Lemmas.GrammarPlainStmt
 /-!
 # C06 — The idempotency classifier is sound, case/whitespace-stable and total
 
@@ -202,6 +204,45 @@ example :
     (classify (lexOf (renderBatch (batch [102]) [])) 120).idem = true ∧
     childrenNonIdem (batch [117, 117, 105, 100]) = true ∧
     (classify (lexOf (renderBatch (batch [117, 117, 105, 100]) [])) 120).idem = false := by
+  decide +kernel
+
+open CqlVerif.Ast in
+/-- **plain_term_accepted** — the other direction, for the values the property calls plain: every term built only
+from literals, bind markers (`?`, `:name`) and list / set / map / tuple literals of such terms, nested to any depth
+and rendered in any token context, is read to its last token and answered "idempotent" without an error, as soon as
+the fuel covers the term's size (the code itself has no fuel: its loops end with the input). -/
+theorem plain_term_accepted (t : Term) (hp : t.plain = true) (L : Lexer) (fuel : Nat) (s : LS) (p : Nat) (rest : List Tok)
+    (hf : t.size ≤ fuel) (hA : At L p (t.render rest)) (hF : Fed s p t.head) :
+    (parseTerm L fuel s t.head.kind).1 = { idem := true } ∧ At L (parseTerm L fuel s t.head.kind).2.2.p rest :=
+  term_complete t hp L fuel s p rest hf hA hF
+
+open CqlVerif.Ast in
+/-- non-vacuity: `{1: [?, :x], 'a': ({}, 2)}` is plain, of size 25 -/
+example :
+    let t : Term := .map (.cons .int (.list (.cons .bindQ (.cons (.bindNamed { text := [120] }) .nil)))
+      (.cons (.prim .str) (.tuple (.cons (.set .nil) (.cons .int .nil))) .nil))
+    t.plain = true ∧ t.size = 25 ∧ (parseTerm (lexOf (t.render [])) 25 { p := 1 } tkLcurly).1 = { idem := true } := by
+  decide +kernel
+
+open CqlVerif.Ast in
+/-- **plain_insert_accepted** — a plain mutation is reported idempotent: every `INSERT INTO [ks.]table (columns) VALUES
+(plain terms)` with or without a trailing `;` - any names, any number of columns and values, VALUES in any letter
+case - scanned from the start of the input up to its end, is classified "idempotent" with no error, as soon as the
+fuel covers its size. -/
+theorem plain_insert_accepted (i : Insert) (semi : Bool) (hkw : i.valuesKw.equal "values" = true) (hpl : i.vals.plain = true)
+    (htail : i.tail = endToks semi) (L : Lexer) (fuel : Nat) (hf : i.cols.length + i.vals.size + 2 ≤ fuel)
+    (hA : At L 0 i.render) : classify L fuel = { idem := true } :=
+  plain_insert i semi hkw hpl htail L fuel hf hA
+
+open CqlVerif.Ast in
+/-- non-vacuity: `INSERT INTO ks.values (a, b) VALUES (?, {1, 'x'});` meets the hypotheses with fuel 14 -/
+example :
+    let i : Insert :=
+      { ks := some { text := [107, 115] }, table := { text := [118, 97, 108, 117, 101, 115] },
+        cols := [{ text := [97] }, { text := [98] }], valuesKw := { text := [86, 65, 76, 85, 69, 83] },
+        vals := .cons .bindQ (.cons (.set (.cons .int (.cons (.prim .str) .nil))) .nil), tail := endToks true }
+    i.valuesKw.equal "values" = true ∧ i.vals.plain = true ∧ i.cols.length + i.vals.size + 2 ≤ 14 ∧
+    classify (lexOf i.render) 14 = { idem := true } := by
   decide +kernel
 
 end CqlVerif.C06
